@@ -168,7 +168,9 @@ impl Prop for C06 {
          A1% / FA, F-names) and 6 arrays (1 and 2 dimensions, an array and a scalar both called A): assignments of \
          numbers and strings (also of the wrong kind), array stores and reads with subscripts -1, 0, 1, bound-1, bound, \
          bound+1, 10, 11, DIM (fresh and repeated), ERASE, DEFINT/DEFSNG/DEFDBL/DEFSTR ranges, SWAP of equal and \
-         mixed types. After every statement (a) the probe hook lists every stored value and each must have the type \
+         mixed types, chains on one array (store, ERASE, DIM with smaller bounds, the same store again), program lines typed \
+         and removed in between; every 8th case is a three-line program that SWAPs two l-values (equal types \
+         exchange; mixed types stop with TYPE MISMATCH and after CONT both still hold their own values). After every statement (a) the probe hook lists every stored value and each must have the type \
          its own name implies (suffix or first-letter DEFtype), (b) the error reported, if any, must be the model's \
          (TYPE MISMATCH, SUBSCRIPT OUT OF RANGE, REDIMENSIONED ARRAY), and every 4th step all tracked names are \
          printed and compared with the reference store (unassigned = 0 / \"\"; distinct names never influence each \
